@@ -372,13 +372,31 @@ def cleanup (cl : Cleanuper) : Val → Bool → Bool → Except Err (El × Bool)
       let e ← transformMap cl o name leaf v
       pure (e, fch)
     | none =>
-      if leaf then .ok ((name, leaf, v), fch) else
+      if leaf then
+        match v with
+        | .list xs => do
+          -- a flattened sequence: the matched elements are cleaned in place
+          let xs' ← cleanSeq cl xs
+          pure ((name, leaf, .list xs'), fch)
+        | _ => .ok ((name, leaf, v), fch)
+      else
       match v with
       | .list xs => do
         let rs ← cleanupAll cl xs (decide (name ∈ cl.choice))
         squashStep cl name fc fch rs
       | _ => .error .typeError
   | _, _, _ => .error .attributeError
+
+/-- `for seq_elem in t_elem.value: if isinstance(seq_elem, TElement): self._cleanup(seq_elem)` -/
+def cleanSeq (cl : Cleanuper) : List Val → Except Err (List Val)
+  | [] => .ok []
+  | .elem n l v :: xs => do
+    let r ← cleanup cl (.elem n l v) false false
+    let rs ← cleanSeq cl xs
+    pure (r.1.toVal :: rs)
+  | x :: xs => do
+    let rs ← cleanSeq cl xs
+    pure (x :: rs)
 
 def cleanupAll (cl : Cleanuper) : List Val → Bool → Except Err (List (El × Bool))
   | [], _ => .ok []
@@ -529,7 +547,7 @@ def conforms (P : Prods) : Val → Bool
     match lookup P name with
     | none =>
       (match v with
-       | .list xs => leaf || conformsAll P xs
+       | .list xs => conformsAll P xs
        | _ => true)
     | some rules =>
       match leaf, v with
